@@ -19,6 +19,7 @@ LEVEL_TEXT = {
     "C13": ("exploration", "Differential: the same generated program runs on a non-trivial element type and on its trivially copyable twin; full observation traces (values, sizes, capacities, data() stability, allocate counts) must be identical; object canaries and ASan guard bytes outside storage.", "§4 C13"),
     "C14": ("exploration", "Growth probe on every reallocating listed call: new capacity >= required and >= 1.5x old unless saturated at max_size().", "§4 C14"),
     "C15": ("exploration", "Instrumented single-pass iterators (shared cursor) trap double dereference, skipped positions, stale copies and access at/past last; multi-pass iterators trap walking outside [first,last]; generator call log; result compared with the model.", "§4 C15"),
+    "C16": ("exploration", "Exhaustive differential test against std::vector over all pairs of small contents x capacity pairs x four element types for ==, !=, <, <=, >, >= and <=>, with consistency laws, in four builds (g++/clang++ x C++17/C++20) whose verdict tables are cross-checked; non-member erase/erase_if/swap/accessors; rapidcheck contents beyond the bound.", "§4 C16"),
 }
 
 
@@ -69,12 +70,14 @@ TECHNIQUE = {
     "C13": "differential property testing (trivially copyable twin vs non-trivial type), trace comparison",
     "C14": "stateful property testing with a geometric-growth oracle",
     "C15": "property testing with instrumented single-pass / checked iterators",
+    "C16": "exhaustive small-domain differential testing against std::vector plus rapidcheck-generated contents, cross-build table comparison",
 }
 
 ENGINES = [
     {"name": "hist", "path": "harness/hist_main.cpp + harness/interp*.{hpp,inc}", "serves_properties": ["C01", "C02", "C03", "C04", "C07", "C09", "C10", "C11", "C13", "C14", "C15"],
      "kind_free_text": "rapidcheck-generated operation programs interpreted against small_vector and a std::vector model, with probes"},
     {"name": "lim", "path": "harness/lim_main.cpp", "serves_properties": ["C12"], "kind_free_text": "narrow size_type / small max_size() allocators, exhaustive and boundary-biased enumeration"},
+    {"name": "cmp", "path": "harness/cmp_main.cpp", "serves_properties": ["C16"], "kind_free_text": "comparison / non-member differential against std::vector, 4 toolchain builds"},
     {"name": "fault", "path": "harness/hist_main.cpp (fault mode)", "serves_properties": ["C05", "C06"],
      "kind_free_text": "prefix + operation under test, every fault point enumerated"},
 ]
